@@ -32,7 +32,7 @@ ASSUMPTIONS = ["reference model vf/pm.reference encodes the statement; conflicti
 
 def budget(tier: str) -> dict[str, Any]:
     if tier == "quick":
-        return {"shards": 8, "cases": 2500}
+        return {"shards": 8, "cases": 10000}
     return {"shards": 32, "cases": 40000, "hashseeds": [0, 1, 2, 3, 4, 5, 6, 7]}
 
 
